@@ -1007,6 +1007,8 @@ class Fxp():
                 if self.n_frac == 0:
                     val = raw_val
                 else:
+                    if self.n_frac >= 63 and isinstance(raw_val, np.ndarray) and raw_val.dtype.kind in 'iu':
+                        raw_val = raw_val.astype(object)    # (the factor 2**n_frac itself does not fit the machine integer)
                     val = np.asarray(raw_val // self._get_conv_factor())    # (a 0-d object array decays to a python number)
                     val = np.array(list(map(int, val.flatten()))).reshape(val.shape)
                 
